@@ -82,3 +82,6 @@ BOUNDED = [{"name": "fixed-point-of-parse-results", "script": "bounded/b10_fixed
 # re-parsing a parse result goes through adapt_class_type with the defaults as previous value: dict_kwargs / init_args of another class must not leak in
 from contracts.class_type import class_type_unit, discard_unit  # noqa: E402
 UNITS += [class_type_unit("C10"), discard_unit("C10")]
+
+from contracts.adapt_arms import dispatch_unit  # noqa: E402
+UNITS.append(dispatch_unit("C10"))
